@@ -65,8 +65,11 @@ static std::string evbuf;
 static int out_fd = 1;
 extern "C" ssize_t __real_write(int, const void *, size_t);
 extern "C" ssize_t __real_read(int, void *, size_t);
+static size_t ev_total = 0;
 void ev_flush() {
   size_t off = 0;
+  ev_total += evbuf.size();
+  if (ev_total > (size_t)48 << 20) { static const char m[] = "E 0 0 HANG eventlog\n"; __real_write(out_fd, m, sizeof m - 1); _exit(75); }
   while (off < evbuf.size()) {
     ssize_t n = __real_write(out_fd, evbuf.data() + off, evbuf.size() - off);
     if (n <= 0) { if (errno == EINTR) continue; break; }
@@ -96,6 +99,8 @@ void violation(const char *oracle, const char *fmt, ...) {
 }
 extern "C" void __sanitizer_set_death_callback(void (*)(void));
 static void on_death() { ev("sanitizer_death"); ev_flush(); }
+// last-resort hang detector: a run that normally takes milliseconds is cut after wall_s real seconds
+static void on_alarm(int) { static const char m[] = "E 0 0 HANG wallclock\n"; ev_flush(); __real_write(out_fd, m, sizeof m - 1); _exit(76); }
 
 // ------------------------------------------------------------------ driver log capture
 extern "C" int __real_debug_message(const char *fmt, ...);
@@ -179,12 +184,28 @@ static EntryState snapshot() {
   e.chb = obstate(current_heart_beat);
   return e;
 }
+void dump_users(const char *when);
+static long dump_users_every = 0;
 void invariants_at_cycle() {
+  if (dump_users_every && have_entry) dump_users("cycle");
   if (!have_entry) { sp0 = sp; csp0 = csp; }
   EntryState e = snapshot();
   if (!have_entry || !(e == entry_prev))
     ev("entry sp=%ld csp=%ld cgd=%d ecd=%d es=%d co=%d cg=%d ci=%d po=%d cp=%d chb=%d", e.sp_off, e.csp_off, e.cgd, e.ecd, e.es, e.co, e.cg, e.ci, e.po, e.cp, e.chb);
   entry_prev = e; have_entry = true;
+}
+
+// ------------------------------------------------------------------ user table dump (observed state for C12/C13/C14 oracles)
+int kernel_conn_of_fd(int fd);
+void dump_users(const char *when) {
+  for (int i = 0; all_users && i < max_users; i++) {
+    interactive_t *ip = all_users[i];
+    if (!ip) continue;
+    std::string ring;
+    for (int k = 0; k < ip->message_length && k < MESSAGE_BUF_SIZE; k++) ring += ip->message_buf[(ip->message_consumer + k) % MESSAGE_BUF_SIZE];
+    ev("user when=%s slot=%d conn=%d outlen=%d text_start=%ld text_end=%ld iflags=%x ring=%s", when, i, kernel_conn_of_fd(ip->fd),
+       ip->message_length, (long)ip->text_start, (long)ip->text_end, ip->iflags, hex_enc(ring.data(), ring.size()).c_str());
+  }
 }
 
 // ------------------------------------------------------------------ plan parsing
@@ -291,8 +312,11 @@ int sim_main_run(const Plan &plan) {
   S.console_mode = plan.optl("console", 0) != 0;
   S.stdin_tty = plan.optl("tty", 1) != 0;
   master_exempt = plan.optl("fault_exempt_master", 0);
+  dump_users_every = plan.optl("dump_users", 0);
   kernel_reset();
   __sanitizer_set_death_callback(on_death);
+  signal(SIGALRM, on_alarm);
+  alarm((unsigned)plan.optl("wall_s", 10));
 
   char dirbuf[256];
   snprintf(dirbuf, sizeof dirbuf, "%s/nsim-%08d", scratch_base().c_str(), (int)getpid());
@@ -349,6 +373,7 @@ int sim_main_run(const Plan &plan) {
     backend();
     S.in_backend = false;
   }
+  dump_users("final");
   ev("backend_returned cycles=%ld instr=%ld faults=%ld timer_fires=%ld", S.cycle, S.instr_total, S.faults_fired, S.timer_fires);
   std::string st;
   for (auto &kv : S.stats) { st += " " + kv.first + "=" + std::to_string(kv.second); }
